@@ -90,8 +90,18 @@ def run(ctx):
         t = lim
         while t[0] in ('cast', 'conv'):
             t = t[2]
-        oklim = t[0] == 'bin' and t[1] == '-' and 'max' in repr(t[2]) and t[3][0] == 'bin' and t[3][1] == '%' and 'max' in repr(t[3][2]) and t[3][3][0] == 'var' and t[3][3][2] == 'range'
-    ctx.check(oklim, 'R2', 'limit = engine max - engine max % range (the largest multiple of range)', where(ui), ex.pretty(lim) if lim else 'not found', key='R2|uniform_int|limit')
+        def engine_max(x):
+            # the largest value of the engine: mt19937::max() (a call, or the constant clang folded it to: 2^32-1), possibly through a constexpr local
+            while x[0] in ('cast', 'conv'):
+                x = x[2]
+            if x[0] == 'var' and x[1] == 'local':
+                dd = [e_.rhs for eid_ in range(len(ui['elems'])) for e_ in v.events_of(eid_) if e_.kind == 'assign' and e_.lhs == x]
+                return len(dd) == 1 and engine_max(dd[0])
+            if x[0] == 'int' or (x[0] == 'str' and str(x[1]).isdigit()):
+                return int(x[1]) == 4294967295
+            return x[0] == 'call' and x[1].endswith('::max') and 'mersenne_twister_engine' in x[1]
+        oklim = t[0] == 'bin' and t[1] == '-' and engine_max(t[2]) and t[3][0] == 'bin' and t[3][1] == '%' and engine_max(t[3][2]) and t[3][3][0] == 'var' and t[3][3][2] == 'range'
+    ctx.check(bool(oklim), 'R2', 'limit = engine max - engine max % range (the largest multiple of range), engine max = mt19937::max() = 2^32-1', where(ui), ex.pretty(lim) if lim else 'not found', key='R2|uniform_int|limit')
     okloop = False
     for h in v.loop_heads():
         at = v.cond_atom(h['id'])
